@@ -30,7 +30,7 @@ impl Axecutor {
         let (dest, src) = self.instruction_operands_2(i)?;
 
         let src_addr = match src {
-            Operand::Memory(m) => self.mem_addr(m),
+            Operand::Memory(m) => self.mem_addr(m.without_segment()),
             _ => fatal_error!("Invalid source operand {:?} for LEA r16, m", src),
         };
 
@@ -49,7 +49,7 @@ impl Axecutor {
         let (dest, src) = self.instruction_operands_2(i)?;
 
         let src_addr = match src {
-            Operand::Memory(m) => self.mem_addr(m),
+            Operand::Memory(m) => self.mem_addr(m.without_segment()),
             _ => fatal_error!("Invalid source operand {:?} for LEA r32, m", src),
         };
 
@@ -68,7 +68,7 @@ impl Axecutor {
         let (dest, src) = self.instruction_operands_2(i)?;
 
         let src_addr = match src {
-            Operand::Memory(m) => self.mem_addr(m),
+            Operand::Memory(m) => self.mem_addr(m.without_segment()),
             _ => fatal_error!("Invalid source operand {:?} for LEA r64, m", src),
         };
 
